@@ -26,7 +26,9 @@ LEVEL_NOTE = ("Object half: proved for the decode programs go2coq reads off ever
               "of Treads in flight; the sequence of pool operations of one Tread (Get, ReadAt, send, zeroing, Put) is GENERATED from tread.handle / send / PayloadCleanup (gen_read_ops, "
               "obligation read_ops_spec) and C18_read_data_concurrent is proved for that program over every interleaving and every pool choice by an exclusive-ownership invariant; the "
               "model expresses the leaks (_refuted twins: early/double Put, no zeroing). Codec/Pool.v (sequential reads, recv's pooled decode buffer with arbitrary previous content) "
-              "is a HAND model tied by three generated syntactic facts (C18_pool_facts) and by the poisoned-pool / lazy-backend differential; C18_payload_cleared and C18_payload_slice hold "
+              "is a hand model; recv's appendBuffer is additionally READ structurally (gen_recv_grow_cmp / decode_slice / read_slice = which view of the pooled buffer decides growth, is "
+              "handed to decode, is filled by ReadFrom), interpreted by Pool.recv_buffer_g which also models the bytes between length and capacity, with C18_pool_generated_independent "
+              "for the generated views and a _refuted theorem for EVERY other decode view; the rest is tied by three generated syntactic facts (C18_pool_facts) and by the poisoned-pool / lazy-backend differential; C18_payload_cleared and C18_payload_slice hold "
               "BY CONSTRUCTION of the model. The error paths of tread.handle (buffer dropped, never put back) are the prefix Get, ReadAt of the program: covered because a schedule may "
               "stop a request anywhere. Trusted: Coq kernel + vm_compute; go2coq CodecGen; sync.Pool returns some buffer that was Put or a new one (quantified over); vecnet ReadFrom "
               "fills the whole slice or fails (C17); handle returns before send starts (data dependency in handleRequest).")
